@@ -116,3 +116,34 @@ pub fn vx_string_add(a: String, b: &str) -> (r: String)
 pub fn vx_unwrap_or_default_string(o: Option<String>) -> (r: String)
     ensures r@ == (match o { Some(s) => s@, None => Seq::<char>::empty() })
 { unimplemented!() }
+
+/// `Option<String>::as_deref()`
+#[verifier::external_body]
+pub fn vx_opt_as_deref(o: &Option<String>) -> (r: Option<&str>)
+    ensures match o { Some(s) => r is Some && r->Some_0@ == s@, None => r is None }
+{ unimplemented!() }
+
+/// `Option::or_else(f)`
+pub fn vx_or_else<T, F: FnOnce() -> Option<T>>(o: Option<T>, f: F) -> (r: Option<T>)
+    requires o is None ==> call_requires(f, ())
+    ensures match o { Some(x) => r == Some(x), None => call_ensures(f, (), r) }
+{
+    match o { Some(x) => Some(x), None => f() }
+}
+
+/// `s.split(c)` as the sequence of pieces not yet yielded (R-method-map in units where every `split` is on a str)
+#[verifier::external_body]
+pub struct VxSplitChar<'a> { it: core::marker::PhantomData<&'a str> }
+impl<'a> VxSplitChar<'a> {
+    pub uninterp spec fn view(&self) -> Seq<Seq<char>>;
+    #[verifier::external_body]
+    pub fn next(&mut self) -> (r: Option<&'a str>)
+        ensures
+            old(self)@.len() == 0 ==> r is None && final(self)@ == old(self)@,
+            old(self)@.len() > 0 ==> r is Some && r->Some_0@ == old(self)@[0] && final(self)@ == old(self)@.skip(1),
+    { unimplemented!() }
+}
+#[verifier::external_body]
+pub fn vx_split_char<'a>(s: &'a str, c: char) -> (r: VxSplitChar<'a>)
+    ensures r@ == split_char(s@, c), r@.len() >= 1
+{ unimplemented!() }
